@@ -36,7 +36,7 @@ type nodeMon struct {
 	sawTwoProposals       bool
 	sawDup                bool
 	commitQBeforePrepared bool
-	preparedIn map[hv]string // (height, view) -> hash: views in which the node sent its COMMIT while its own storage held a prepared certificate
+	preparedIn            map[hv]string // (height, view) -> hash: views in which the node sent its COMMIT while its own storage held a prepared certificate
 }
 
 type Pre struct {
@@ -315,6 +315,23 @@ func (m *Monitors) stepInvariants(n *Node, pre Pre) {
 			}
 		}
 	}
+	// C07 (store-time invariant, independent of when the effect happens - e.g. while a future cache is drained): a proposal for
+	// a view > 0 that the node did not author is stored only if a NEW_VIEW carrying it that passes the reference certificate
+	// check for THIS instance, this height and that view has been delivered to the node
+	if m.on("C07") {
+		for _, e := range n.Sto.Log[pre.StoreLen:] {
+			if e.Kind == "PP" && e.Stored && e.V > 0 && e.Sender != string(n.ID) {
+				if why := m.backedByValidNewView(n, e); why != "" {
+					if m.standalonePreprepareDelivered(n, e) {
+						// the proposal came in as a stand-alone PREPREPARE: the known root cause K1, reported under its own kind
+						m.fail("C07", "standalone-preprepare-adopted", "node %d stored a proposal for view %d delivered as a stand-alone PREPREPARE, without a NEW_VIEW certificate", n.Idx, e.V)
+						continue
+					}
+					m.fail("C07", "proposal-adopted-without-valid-new-view:"+why, "node %d stored a proposal for (h=%d,v=%d) from %q although no NEW_VIEW delivered to it for that (instance, height, view) passes the reference certificate check (%s)", n.Idx, e.H, e.V, e.Sender, why)
+				}
+			}
+		}
+	}
 	// C17 (node level): nothing is stored for a height the node was not at during this step
 	for _, e := range n.Sto.Log[pre.StoreLen:] {
 		if uint64(e.H) < pre.H || uint64(e.H) > h {
@@ -329,6 +346,47 @@ func (m *Monitors) stepInvariants(n *Node, pre Pre) {
 	}
 }
 
+// backedByValidNewView: "" if some NEW_VIEW in the node's input history for exactly (height, view) of the stored proposal, with
+// that proposal hash, is a valid certificate; otherwise the reason the best candidate fails.
+func (m *Monitors) backedByValidNewView(n *Node, e fakes.StoreEvent) string {
+	w := m.w
+	com := w.Committee(e.H)
+	why := "no-new-view-delivered"
+	for _, in := range n.Inbox {
+		if in.Kind != "msg" || in.Raw == nil {
+			continue
+		}
+		meta := MetaOf(in.Raw)
+		if !meta.OK || meta.Union != UNV || meta.H != uint64(e.H) || meta.V != uint64(e.V) || meta.Hash != e.Hash {
+			continue
+		}
+		nv, ok := interfaces.ToConsensusMessage(in.Raw).(*interfaces.NewViewMessage)
+		if !ok || nv == nil {
+			continue
+		}
+		vd, _ := w.Env.ValidNewView(nv, e.H, com, commitmentOK, m.consumerOKAt(n, uint64(e.H)))
+		if vd.OK {
+			return ""
+		}
+		why = vd.Why
+	}
+	return why
+}
+
+// standalonePreprepareDelivered: the node's input history contains a stand-alone PREPREPARE for exactly the stored (height, view, hash).
+func (m *Monitors) standalonePreprepareDelivered(n *Node, e fakes.StoreEvent) bool {
+	for _, in := range n.Inbox {
+		if in.Kind != "msg" || in.Raw == nil {
+			continue
+		}
+		meta := MetaOf(in.Raw)
+		if meta.OK && meta.Union == UPP && meta.H == uint64(e.H) && meta.V == uint64(e.V) && meta.Hash == e.Hash {
+			return true
+		}
+	}
+	return false
+}
+
 func (m *Monitors) onTimeout(n *Node, pre Pre) { m.stepInvariants(n, pre) }
 
 func (m *Monitors) beforeSync(n *Node, c *Commit) {
@@ -340,6 +398,44 @@ func (m *Monitors) beforeSync(n *Node, c *Commit) {
 func (m *Monitors) onSync(n *Node, c *Commit, pre Pre) {
 	m.Facts["sync"]++
 	m.stepInvariants(n, pre)
+}
+
+// SPISnap is what a consumer can observe of a node at its SPI boundary besides sends and callbacks.
+type SPISnap struct {
+	Active      bool
+	Cur         fakes.Registration
+	Stops, Regs int
+	StoreLog    int
+	Clears      int
+	PP          bool // a proposal is stored for the node's current (height, view)
+	Prepares    int  // PREPAREs stored for that proposal
+}
+
+func (m *Monitors) spiSnap(n *Node) SPISnap {
+	var s SPISnap
+	s.Active, s.Cur, s.Stops, s.Regs = n.Sch.Snap()
+	s.StoreLog, s.Clears = n.Sto.NLog(), n.Sto.NClears()
+	if pp, ok := n.Sto.GetPreprepareMessage(primitives.BlockHeight(n.H()), primitives.View(n.V())); ok {
+		s.PP = true
+		s.Prepares = len(n.Sto.GetPrepareSendersIds(primitives.BlockHeight(n.H()), primitives.View(n.V()), pp.Content().SignedHeader().BlockHash()))
+	}
+	return s
+}
+
+// C14: "syncs below the current height change nothing" - judged exactly in single-threaded mode: no send, no callback, no
+// (height, view) change, the election registration untouched, nothing stored or cleared.
+func (m *Monitors) staleSyncChangedNothing(n *Node, c *Commit, pre Pre, before SPISnap) {
+	m.Facts["stale-sync"]++
+	after := m.spiSnap(n)
+	now := m.pre0(n)
+	if now.H != pre.H || now.V != pre.V || now.SentLen != pre.SentLen || now.CommitsLen != pre.CommitsLen || now.RoundsLen != pre.RoundsLen {
+		m.fail("C14", "stale-sync-had-effect", "node %d at (h=%d,v=%d): UpdateState(block %d), below its height, changed (h,v)/sends/callbacks: now (h=%d,v=%d) sends %d->%d commits %d->%d rounds %d->%d",
+			n.Idx, pre.H, pre.V, c.H, now.H, now.V, pre.SentLen, now.SentLen, pre.CommitsLen, now.CommitsLen, pre.RoundsLen, now.RoundsLen)
+		return
+	}
+	if after != before {
+		m.fail("C14", "stale-sync-had-effect:spi-state", "node %d at (h=%d,v=%d): UpdateState(block %d), below its height, changed what the node holds: election registration/storage before %+v after %+v", n.Idx, pre.H, pre.V, c.H, before, after)
+	}
 }
 
 func (m *Monitors) AtEnd() {}
@@ -425,6 +521,9 @@ func idsOfSet(s map[string]bool, extra ...primitives.MemberId) []primitives.Memb
 func (m *Monitors) onSend(n *Node, sm *SentMsg) {
 	if m.w.CloneMode && m.on("C11") {
 		m.cloneCheck(n, sm)
+	}
+	if m.on("C20") {
+		m.wireCheck(n, sm)
 	}
 	nm := m.per[n.Idx]
 	meta := sm.Meta
@@ -556,4 +655,80 @@ func (m *Monitors) storedMessageOK(e fakes.StoreEvent) string {
 		return "signature"
 	}
 	return ""
+}
+
+// ---------------------------------------------------------------- C20 (engine S part): what a correct node puts on the wire
+
+// wireCheck: the raw message parses back to a message of the same kind and header fields, and every signature nested in it
+// verifies over the re-read bytes.
+func (m *Monitors) wireCheck(n *Node, sm *SentMsg) {
+	w := m.w
+	meta := sm.Meta
+	if !meta.OK {
+		m.fail("C20", "emitted-message-does-not-parse", "node %d sent content that does not parse back", n.Idx)
+		return
+	}
+	copyRaw := &interfaces.ConsensusRawMessage{Content: append([]byte{}, sm.Raw.Content...), Block: sm.Raw.Block}
+	if m2 := MetaOf(copyRaw); m2 != meta {
+		m.fail("C20", "parse-not-deterministic", "node %d: parsing a copy of the emitted bytes gives different header fields", n.Idx)
+		return
+	}
+	h := primitives.BlockHeight(meta.H)
+	sig := func(content []byte, s *protocol.SenderSignature) bool {
+		return s != nil && w.Reg.VerifyMsg(h, content, s.MemberId(), s.Signature())
+	}
+	proofOK := func(where string, p *protocol.PreparedProof) {
+		if p == nil || len(p.Raw()) == 0 {
+			return
+		}
+		m.Facts["c20-nested-signatures-checked"]++
+		if !sig(p.PreprepareBlockRef().Raw(), p.PreprepareSender()) {
+			m.fail("C20", "nested-signature-does-not-verify:proof-preprepare", "node %d sent a %s(h=%d,v=%d) whose %s carries a PREPREPARE signature that does not verify over the re-read reference", n.Idx, kindName(meta.Union), meta.H, meta.V, where)
+		}
+		it := p.PrepareSendersIterator()
+		for it.HasNext() {
+			s := it.NextPrepareSenders()
+			if !sig(p.PrepareBlockRef().Raw(), s) {
+				m.fail("C20", "nested-signature-does-not-verify:proof-prepare", "node %d sent a %s(h=%d,v=%d) whose %s lists a PREPARE signature of %q that does not verify over the re-read PREPARE reference (a signature the node had verified when it stored that PREPARE)", n.Idx, kindName(meta.Union), meta.H, meta.V, where, s.MemberId())
+			}
+		}
+	}
+	r := protocol.LeanhelixContentReader(copyRaw.Content)
+	switch meta.Union {
+	case UPP:
+		if !sig(r.PreprepareMessage().SignedHeader().Raw(), r.PreprepareMessage().Sender()) {
+			m.fail("C20", "own-signature-does-not-verify", "node %d: PREPREPARE signature does not verify over the re-read header", n.Idx)
+		}
+	case UP:
+		if !sig(r.PrepareMessage().SignedHeader().Raw(), r.PrepareMessage().Sender()) {
+			m.fail("C20", "own-signature-does-not-verify", "node %d: PREPARE signature does not verify over the re-read header", n.Idx)
+		}
+	case UC:
+		if !sig(r.CommitMessage().SignedHeader().Raw(), r.CommitMessage().Sender()) {
+			m.fail("C20", "own-signature-does-not-verify", "node %d: COMMIT signature does not verify over the re-read header", n.Idx)
+		}
+	case UVC:
+		vc := r.ViewChangeMessage()
+		if !sig(vc.SignedHeader().Raw(), vc.Sender()) {
+			m.fail("C20", "own-signature-does-not-verify", "node %d: VIEW_CHANGE signature does not verify over the re-read header", n.Idx)
+		}
+		proofOK("prepared proof", vc.SignedHeader().PreparedProof())
+	case UNV:
+		nv := r.NewViewMessage()
+		if !sig(nv.SignedHeader().Raw(), nv.Sender()) {
+			m.fail("C20", "own-signature-does-not-verify", "node %d: NEW_VIEW signature does not verify over the re-read header", n.Idx)
+		}
+		if pp := nv.Message(); pp != nil && len(pp.Raw()) > 0 && !sig(pp.SignedHeader().Raw(), pp.Sender()) {
+			m.fail("C20", "own-signature-does-not-verify", "node %d: the PREPREPARE embedded in its NEW_VIEW does not verify over the re-read header", n.Idx)
+		}
+		it := nv.SignedHeader().ViewChangeConfirmationsIterator()
+		for it.HasNext() {
+			vote := it.NextViewChangeConfirmations()
+			m.Facts["c20-nested-signatures-checked"]++
+			if !sig(vote.SignedHeader().Raw(), vote.Sender()) {
+				m.fail("C20", "nested-signature-does-not-verify:vote", "node %d sent a NEW_VIEW(h=%d,v=%d) embedding a vote of %q whose signature does not verify over the re-read vote header", n.Idx, meta.H, meta.V, vote.Sender().MemberId())
+			}
+			proofOK("embedded vote's prepared proof", vote.SignedHeader().PreparedProof())
+		}
+	}
 }
